@@ -2,8 +2,10 @@
 (harness/src/vmcore.rs, vm/drivers.rs, binary vh_vm)."""
 import json
 import os
+import sys
 
 import tracecheck as tc
+import mccalls
 import vlib
 from vlib import ToolError
 
@@ -65,8 +67,11 @@ MANIFEST = {
                      "including out-of-gas ($cgas = 0, $ggas reduced by the old $cgas) with limits that run out mid-program.",
                 note=_COMMON_NOTE + " CALL gas forwarding is covered by C34's check once CALL/RET are exact.", design_ref="4/C26"),
     "C34": dict(category="model_checking",
-                technique="TLA+ specification of CALL / RET / RETD / RVRT (frame bytes, register save/restore, gas forwarding and credit, balance "
-                          "movement, receipts) as oracle in the TLC trace specification; generated call trees on the real VM validated step by step",
+                technique="TLC model-checks the generative model FuelVM_Calls_MC (ALL programs over an alphabet of CALL/RET/RVRT/TR/TRO/MINT/BURN/"
+                          "LOG/stack/heap words up to a depth bound, two input contracts + one outsider, same effect operators as the trace spec) for "
+                          "FrameIntact, FramesNested, CallStep, RetStep, CallerStackUnchanged, TopReturn, GasLedger with reachability witnesses; the "
+                          "TLA+ specification of CALL / RET / RETD / RVRT (frame bytes, register save/restore, gas forwarding and credit, balance "
+                          "movement, receipts) is the oracle in the TLC trace specification; generated call trees on the real VM validated step by step",
                 text="Scripts with random caller registers and stack contents call deployed contracts (plain return, return data of lengths 0..70000, "
                      "callee stack/heap use, recursion, nested calls forwarding coins and gas, revert, panic, attempts to write the caller's frame); "
                      "at the CALL step TLC requires the exact frame bytes (callee id, asset, all 64 saved registers, padded code size, params, code + "
@@ -75,7 +80,9 @@ MANIFEST = {
                      "callee's owned regions must be unchanged at every step.",
                 note=_COMMON_NOTE, design_ref="4/C34"),
     "C27": dict(category="model_checking",
-                technique="TLA+ specification of TR / TRO / MINT / BURN / SMO / BAL / CALL balance movements (exact, with receipts) as oracle in the TLC "
+                technique="TLC model-checks FuelVM_Calls_MC (all programs over a call/asset alphabet, depth-bounded) for per-asset conservation in EVERY "
+                          "state (Conserved, NoOtherAsset, FinalConserved, ReceiptsMove, MovesHaveReceipt) with reachability witnesses; "
+                          "TLA+ specification of TR / TRO / MINT / BURN / SMO / BAL / CALL balance movements (exact, with receipts) as oracle in the TLC "
                           "trace specification, plus a per-asset ledger equation evaluated by TLC at the end of every successful run on OBSERVED "
                           "balances (memory table, storage dump, outputs, receipts)",
                 text="Generated scripts and contracts transfer to contracts and to variable outputs, forward coins in calls, mint, burn, send messages and "
@@ -118,7 +125,9 @@ MANIFEST = {
     "C29": dict(category="exploration",
                 technique="seeded byte-level and grammar-generated scripts executed on the real VM under the TLC trace specification: a host panic, "
                           "Bug error or runaway execution is an event with no specification action (trace rejected); universal per-step "
-                          "obligations evaluated by TLC on every step",
+                          "obligations evaluated by TLC on every step; since the instruction dispatch of the specification is total except ECAL/GM/GTF "
+                          "every executed word is also checked against its exact effect (incl. the hashing, signature, curve and block instructions, "
+                          "driven at their operand boundaries by vh_vmcrypto)",
                 text="Random instruction words (fully random, valid opcode + random arguments, plausible operands) and structured programs run through "
                      "transact/resume; the recorder catches panics of the host; TLC rejects HostPanic/Bug/Runaway events and checks that every "
                      "non-terminal executed instruction strictly decreases $ggas under the default schedule.",
@@ -306,7 +315,15 @@ def run(pid, tier):
             chk.set("model", dict(spec=SPEC_MC, depth=5 if thorough else 3, distinct_states=res.distinct,
                                   invariants=["GasInv", "ConstRegs", "PcOk", "StackOrder", "ZeroOutside"], properties=["GasNeverUp", "WritesOwned"]))
         else:
-            chk.set("model", "quick tier: the generative model FuelVM_MC runs in the C24/C25/C26 checks and in this check's thorough tier")
+            chk.set("model", "quick tier: the straight-line generative model FuelVM_MC runs in the C24/C25/C26 checks and in this check's thorough tier (FuelVM_Calls_MC: see mc_calls)")
+        # ---- Leg M for calls / assets: all programs over a call + asset alphabet (FuelVM_Calls_MC) ----
+        if pid in ("C27", "C34"):
+            mccalls.hook(chk, tier)
+        # ---- Leg T for the hashing / signature / curve / block instructions at their operand boundaries (vh_vmcrypto) ----
+        if pid == "C29" or (thorough and pid in ("C24", "C26", "C28")):
+            sys.path.insert(0, os.path.dirname(os.path.abspath(__file__)))
+            import vm_crypto
+            vm_crypto.leg(chk, tier, tag=pid + "_crypto", selftest=False)
         # ---- Leg T ----
         tr = os.path.join(vlib.WORK, "%s_trace.ndjson" % pid)
         vlib.vh(["record", "vm", "--tier", tier, "--part", ",".join(PARTS[pid]), "-o", tr], bin=BIN, timeout=3000)
